@@ -249,7 +249,7 @@ def run(ctx, method, sym=(), conc=None, elig=None, record_push=False,
         mm0 = M['mm'].TBRMatchedMarkets(data, par0)
         with np.errstate(all='ignore'):
           mm0.greedy_search()
-      if history == 'second_k':
+      if history in ('second_k', 'second_k_empty'):
         k_now = par.n_designs
         par.n_designs = 4
       mm = M['mm'].TBRMatchedMarkets(data, par)
@@ -280,12 +280,15 @@ def run(ctx, method, sym=(), conc=None, elig=None, record_push=False,
             # the object has already run both searches once
             mm.greedy_search()
             mm.exhaustive_search()
-          if history == 'second_k':
+          if history in ('second_k', 'second_k_empty'):
             # ... with a larger n_designs (set before the object was built),
             # lowered before this search
             mm.greedy_search()
             mm.exhaustive_search()
             par.n_designs = k_now
+            if history == 'second_k_empty':
+              # ... and the treatment size range made inadmissible
+              par.treatment_geos_range = (ctx.N + 1, ctx.N + 2)
           del out.pushed[:]     # keep only the pushes of the judged search
           if method == 'exhaustive':
             out.result = mm.exhaustive_search()
